@@ -413,37 +413,46 @@ static void dl_step(char **w, int n)
 
 /* ------------------------------------------------------------------- SHList */
 #define SH_SLOTS 64
-#define SH_LEN (SH_SLOTS * 16)
 #define SH_ARENA_LEN 8192
 static char *sh_arena;      /* exact-size malloc: ASan sees any escape */
 static unsigned sh_off;
+/* layout of the region: slot k lives at byte offset sh_h + sh_stride * k (the node embedded in
+ * records of sh_stride bytes), sh_n slots */
+static unsigned sh_h, sh_stride = 16, sh_n = SH_SLOTS;
+#define SH_LEN (sh_h + sh_stride * sh_n)
 static unsigned char sh_st[SH_SLOTS];
 
-static struct SHList *sh_at(unsigned slot) { return (struct SHList *)(sh_arena + sh_off + 16 * slot); }
-static ull sh_slot(const struct SHList *p) { return (ull)(((const char *)p - (sh_arena + sh_off)) / 16); }
-static void sh_reset(void)
+static struct SHList *sh_at(unsigned slot) { return (struct SHList *)(sh_arena + sh_off + sh_h + sh_stride * slot); }
+static ull sh_slot(const struct SHList *p) { return (ull)(((const char *)p - (sh_arena + sh_off + sh_h)) / sh_stride); }
+/* is p the address of a slot of the region (inside it and on the record grid)? */
+static int sh_on_grid(const struct SHList *p)
+{
+	const char *lo = sh_arena + sh_off + sh_h, *c = (const char *)p;
+	return c >= lo && c < sh_arena + sh_off + SH_LEN && (size_t)(c - lo) % sh_stride == 0;
+}
+static void sh_setup(unsigned h, unsigned stride, unsigned n)
 {
 	free(sh_arena);
 	sh_arena = malloc(SH_ARENA_LEN);
 	memset(sh_arena, 0xA5, SH_ARENA_LEN);
-	sh_off = 0;
+	sh_off = 0; sh_h = h; sh_stride = stride; sh_n = n;
 	memset(sh_arena, 0, SH_LEN);
 	memset(sh_st, 0, sizeof(sh_st));
 	shlist_init(sh_at(0));
 	shlist_init(sh_at(1));
 }
+static void sh_reset(void) { sh_setup(0, 16, SH_SLOTS); }
 static void sh_head(unsigned h)
 {
 	struct SHList *head = sh_at(h), *el;
 	uint64_t fh = HC_FNV_INIT, bh = HC_FNV_INIT;
 	unsigned fl = 0, bl = 0;
-	char *lo = sh_arena + sh_off, *hi = lo + SH_LEN;
 	for (el = shlist_get_next(head); el != head && fl < SH_SLOTS + 1; el = shlist_get_next(el)) {
-		if ((char *)el < lo || (char *)el >= hi) { fh = hc_fnv(fh, 999999); fl++; break; }
+		if (!sh_on_grid(el)) { fh = hc_fnv(fh, 999999); fl++; break; }
 		fh = hc_fnv(fh, sh_slot(el)); fl++;
 	}
 	for (el = shlist_get_prev(head); el != head && bl < SH_SLOTS + 1; el = shlist_get_prev(el)) {
-		if ((char *)el < lo || (char *)el >= hi) { bh = hc_fnv(bh, 999999); bl++; break; }
+		if (!sh_on_grid(el)) { bh = hc_fnv(bh, 999999); bl++; break; }
 		bh = hc_fnv(bh, sh_slot(el)); bl++;
 	}
 	printf(" H%u=%u:%" PRIx64 ":%u:%" PRIx64, h, fl, fh, bl, bh);
@@ -453,25 +462,35 @@ static void sh_tail(void)
 	uint64_t ih = HC_FNV_INIT;
 	unsigned i;
 	sh_head(0); sh_head(1);
-	for (i = 0; i < SH_SLOTS; i++)
+	for (i = 0; i < sh_n; i++)
 		ih = fnvi(fnvi(ih, sh_at(i)->next), sh_at(i)->prev);
 	printf(" ## r=%" PRIx64, ih);
 }
-static void sh_put(const struct SHList *p) { if (p) printf("%llu", sh_slot(p)); else printf("null"); }
+static void sh_put(const struct SHList *p)
+{
+	if (!p) printf("null");
+	else if (!sh_on_grid(p)) printf("garbage");
+	else printf("%llu", sh_slot(p));
+}
 static void sh_step(char **w, int n)
 {
-	ull a, b;
-	if (n == 2 && !strcmp(w[0], "node") && parse_u(w[1], &a)) {
-		if (!(a >= 2 && a < SH_SLOTS && sh_st[a] <= 1)) { printf("bad-op"); return; }
+	ull a, b, c;
+	if (n == 4 && !strcmp(w[0], "layout") && parse_u(w[1], &a) && parse_u(w[2], &b) && parse_u(w[3], &c)) {
+		/* fresh region: slot k at byte offset a + b * k (node embedded in b-byte records) */
+		if (!(a % 8 == 0 && a <= 64 && b % 8 == 0 && b >= 16 && b <= 120 && c >= 3 && c <= 64)) { printf("bad-op"); return; }
+		sh_setup((unsigned)a, (unsigned)b, (unsigned)c);
+		printf("ok"); sh_tail();
+	} else if (n == 2 && !strcmp(w[0], "node") && parse_u(w[1], &a)) {
+		if (!(a >= 2 && a < sh_n && sh_st[a] <= 1)) { printf("bad-op"); return; }
 		shlist_init(sh_at(a)); sh_st[a] = 1;
 		printf("ok"); sh_tail();
 	} else if (n == 3 && (!strcmp(w[0], "app") || !strcmp(w[0], "pre")) && parse_u(w[1], &a) && parse_u(w[2], &b)) {
-		if (!(a <= 1 && b >= 2 && b < SH_SLOTS && sh_st[b] == 1)) { printf("bad-op"); return; }
+		if (!(a <= 1 && b >= 2 && b < sh_n && sh_st[b] == 1)) { printf("bad-op"); return; }
 		if (!strcmp(w[0], "app")) shlist_append(sh_at(a), sh_at(b)); else shlist_prepend(sh_at(a), sh_at(b));
 		sh_st[b] = 2 + a;
 		printf("ok"); sh_tail();
 	} else if (n == 2 && !strcmp(w[0], "rm") && parse_u(w[1], &a)) {
-		if (!(a >= 2 && a < SH_SLOTS && sh_st[a] >= 1)) { printf("bad-op"); return; }
+		if (!(a >= 2 && a < sh_n && sh_st[a] >= 1)) { printf("bad-op"); return; }
 		shlist_remove(sh_at(a)); sh_st[a] = 1;
 		printf("ok"); sh_tail();
 	} else if (n == 2 && !strcmp(w[0], "move") && parse_u(w[1], &a)) {
@@ -493,7 +512,7 @@ static void sh_step(char **w, int n)
 		head = sh_at(a);
 		if (!strcmp(w[0], "pop")) {
 			el = shlist_pop(head);
-			if (el) sh_st[sh_slot(el)] = 1;
+			if (el && sh_on_grid(el)) sh_st[sh_slot(el)] = 1;
 			sh_put(el); sh_tail();
 		} else if (!strcmp(w[0], "first")) { sh_put(shlist_first(head)); sh_tail(); }
 		else if (!strcmp(w[0], "last")) { sh_put(shlist_last(head)); sh_tail(); }
@@ -501,11 +520,17 @@ static void sh_step(char **w, int n)
 		else {
 			unsigned cnt = 0;
 			printf("dump ");
-			shlist_for_each(el, head) { printf("%s%llu", cnt ? "," : "", sh_slot(el)); if (++cnt > SH_SLOTS) break; }
+			shlist_for_each(el, head) {
+				if (!sh_on_grid(el)) { printf("%sgarbage", cnt ? "," : ""); break; }
+				printf("%s%llu", cnt ? "," : "", sh_slot(el));
+				if (++cnt > SH_SLOTS) break;
+			}
 			printf(" | ");
 			cnt = 0;
-			for (el = shlist_get_prev(head); el != head && cnt <= SH_SLOTS; el = shlist_get_prev(el), cnt++)
+			for (el = shlist_get_prev(head); el != head && cnt <= SH_SLOTS; el = shlist_get_prev(el), cnt++) {
+				if (!sh_on_grid(el)) { printf("%sgarbage", cnt ? "," : ""); break; }
 				printf("%s%llu", cnt ? "," : "", sh_slot(el));
+			}
 		}
 	} else
 		printf("bad-op");
